@@ -231,6 +231,13 @@ Proof.
         -- left. split; auto.
       * right. left. destruct T as (T1 & T2). split; auto.
       * destruct T as (_ & _ & [T|(cur & T & _)]); congruence.
+  - (* G_fail: only ghost fields change *)
+    assert (E : st_ar s' = st_ar s /\ st_newq s' = st_newq s /\ st_a s' = st_a s /\
+                st_callbacks s' = st_callbacks s).
+    { unfold g_fail in H. destruct (st_g s); inversion H; subst; auto.
+      destruct (prebuild cf && built); auto. }
+    destruct E as (E1 & E2 & E3 & E4). right. rewrite E2, E3, E4.
+    destruct T as [T|[T|T]]; [tauto| |]; [right; left|right; right]; intuition eauto using live_frame.
 Qed.
 
 Lemma track_run cf n k p sched s s' :
